@@ -77,6 +77,44 @@
 #undef protected
 using namespace mfuse;
 
+// a host class whose fields and commands fail in every way a field opcode can see:
+//   c02bad   getter that throws            c02ro    getter only (assignment: read-only)
+//   c02wo    setter only (read: write-only) c02bads  working getter, setter that throws
+//   c02fail  command that throws           c02failret  value-returning command that throws
+//   c02ok    getter + setter that work
+static EventDef ev_c02_bad_g("c02bad", EV_DEFAULT, nullptr, nullptr, "getter that throws", evType_e::Getter);
+static EventDef ev_c02_ro_g("c02ro", EV_DEFAULT, nullptr, nullptr, "read-only field", evType_e::Getter);
+static EventDef ev_c02_wo_s("c02wo", EV_DEFAULT, "i", "value", "write-only field", evType_e::Setter);
+static EventDef ev_c02_bads_g("c02bads", EV_DEFAULT, nullptr, nullptr, "getter", evType_e::Getter);
+static EventDef ev_c02_bads_s("c02bads", EV_DEFAULT, "i", "value", "setter that throws", evType_e::Setter);
+static EventDef ev_c02_ok_g("c02ok", EV_DEFAULT, nullptr, nullptr, "getter", evType_e::Getter);
+static EventDef ev_c02_ok_s("c02ok", EV_DEFAULT, "i", "value", "setter", evType_e::Setter);
+static EventDef ev_c02_fail("c02fail", EV_DEFAULT, nullptr, nullptr, "command that throws", evType_e::Normal);
+static EventDef ev_c02_failret("c02failret", EV_DEFAULT, nullptr, nullptr, "returning command that throws", evType_e::Return);
+
+class C02Host : public Listener
+{
+    MFUS_CLASS_PROTOTYPE(C02Host);
+public:
+    void Throw(Event&) { throw ScriptException("c02 host failure"); }
+    void Get(Event& ev) { ev.AddInteger(7); }
+    void Set(Event&) {}
+};
+
+MFUS_CLASS_DECLARATION(Listener, C02Host, nullptr)
+{
+    { &ev_c02_bad_g, &C02Host::Throw },
+    { &ev_c02_ro_g, &C02Host::Get },
+    { &ev_c02_wo_s, &C02Host::Set },
+    { &ev_c02_bads_g, &C02Host::Get },
+    { &ev_c02_bads_s, &C02Host::Throw },
+    { &ev_c02_ok_g, &C02Host::Get },
+    { &ev_c02_ok_s, &C02Host::Set },
+    { &ev_c02_fail, &C02Host::Throw },
+    { &ev_c02_failret, &C02Host::Throw },
+    { nullptr, nullptr }
+};
+
 #define C02_OPS(X) \
     X(OP_DONE) X(OP_BOOL_JUMP_FALSE4) X(OP_BOOL_JUMP_TRUE4) X(OP_VAR_JUMP_FALSE4) X(OP_VAR_JUMP_TRUE4) \
     X(OP_BOOL_LOGICAL_AND) X(OP_BOOL_LOGICAL_OR) X(OP_VAR_LOGICAL_AND) X(OP_VAR_LOGICAL_OR) X(OP_BOOL_TO_VAR) \
